@@ -109,10 +109,13 @@ fn uss<'db>(db: &'db dyn Database, locs: &mut Locs<'db>, v: &[VarUsage<'db>]) ->
     format!("[{}]", v.iter().map(|u| us(db, locs, u)).collect::<Vec<_>>().join(";"))
 }
 
-pub fn translate<'db>(db: &'db dyn Database, f: FunctionWithBodyId<'db>, name: String) -> Result<FnCase, String> {
-    let lowered: &Lowered<'db> = db.function_with_body_lowering(f).map_err(|_| "no lowering".to_string())?;
-    let is_pd = f.to_concrete(db).and_then(|c| c.is_panic_destruct_fn(db)).map_err(|_| "no concrete id".to_string())?;
-    let bc = db.borrow_check(f).map_err(|_| "borrow_check failed".to_string())?;
+/// Ok(None): the function has no lowering (semantic errors) - the borrow checker does not run on it.
+pub fn translate<'db>(db: &'db dyn Database, f: FunctionWithBodyId<'db>, name: String) -> Result<Option<FnCase>, String> {
+    let Ok(lowered) = db.function_with_body_lowering(f) else { return Ok(None) };
+    let lowered: &Lowered<'db> = lowered;
+    // the two other inputs of borrow_check_tracked (db.rs); they fail only together with the lowering
+    let Ok(is_pd) = f.to_concrete(db).and_then(|c| c.is_panic_destruct_fn(db)) else { return Ok(None) };
+    let Ok(bc) = db.borrow_check(f) else { return Ok(None) };
     let mut locs = Locs { map: HashMap::new() };
     let mut st = FnStats::default();
     let vs = |v: &[cairo_lang_lowering::VariableId]| -> String {
@@ -142,8 +145,24 @@ pub fn translate<'db>(db: &'db dyn Database, f: FunctionWithBodyId<'db>, name: S
                 Statement::IntoBox(c) => format!("SIntoBox {} {}", us(db, &mut locs, &c.input), c.output.index()),
                 Statement::Unbox(c) => format!("SUnbox {} {}", us(db, &mut locs, &c.input), c.output.index()),
             };
-            // the model reads inputs()/outputs() of a statement; make sure the printed fields are those
-            debug_assert!(s.inputs().len() < 1 << 20 && s.outputs().len() < 1 << 20);
+            // the checker reads Statement::inputs()/outputs(); the model derives them from the printed
+            // fields (Lowered.v stmt_inputs / stmt_outputs): make sure both views agree
+            let (mi, mo): (Vec<usize>, Vec<usize>) = match s {
+                Statement::Const(c) => (vec![], vec![c.output.index()]),
+                Statement::Call(c) => (c.inputs.iter().map(|u| u.var_id.index()).collect(), c.outputs.iter().map(|v| v.index()).collect()),
+                Statement::StructConstruct(c) => (c.inputs.iter().map(|u| u.var_id.index()).collect(), vec![c.output.index()]),
+                Statement::StructDestructure(c) => (vec![c.input.var_id.index()], c.outputs.iter().map(|v| v.index()).collect()),
+                Statement::EnumConstruct(c) => (vec![c.input.var_id.index()], vec![c.output.index()]),
+                Statement::Snapshot(c) => (vec![c.input.var_id.index()], vec![c.original().index(), c.snapshot().index()]),
+                Statement::Desnap(c) => (vec![c.input.var_id.index()], vec![c.output.index()]),
+                Statement::IntoBox(c) => (vec![c.input.var_id.index()], vec![c.output.index()]),
+                Statement::Unbox(c) => (vec![c.input.var_id.index()], vec![c.output.index()]),
+            };
+            let ri: Vec<usize> = s.inputs().iter().map(|u| u.var_id.index()).collect();
+            let ro: Vec<usize> = s.outputs().iter().map(|v| v.index()).collect();
+            if mi != ri || mo != ro {
+                return Err(format!("translator out of date: Statement::inputs()/outputs() of {name} differ from the fields the model reads"));
+            }
             ss.push(t);
         }
         let e = match &b.end {
@@ -189,5 +208,5 @@ pub fn translate<'db>(db: &'db dyn Database, f: FunctionWithBodyId<'db>, name: S
         expected.push((k, locs.key(d.location.stable_location)));
     }
     let fingerprint = hash_str(&coq);
-    Ok(FnCase { name, coq, expected, lowering_has_errors: lowered.diagnostics.has_errors(), stats: st, fingerprint })
+    Ok(Some(FnCase { name, coq, expected, lowering_has_errors: lowered.diagnostics.has_errors(), stats: st, fingerprint }))
 }
